@@ -77,6 +77,10 @@ def timestamp_to_sf_struct(ts: pa.Array | pa.ChunkedArray) -> pa.Array:
     if not isinstance(ts.type, pa.TimestampType):
         raise ValueError(f"Expected TimestampArray, got {type(ts)}")
 
+    # NULL timestamps are NULL structs (whose child values don't matter)
+    null_mask = pc.is_null(ts)
+    ts = pc.fill_null(ts, 0)
+
     # Round to seconds, ie: strip subseconds
     tsa_without_us = pc.floor_temporal(ts, unit="second")  # type: ignore https://github.com/zen-xu/pyarrow-stubs/issues/45
     epoch = pc.divide(tsa_without_us.cast(pa.int64()), 1_000_000)  # type: ignore https://github.com/zen-xu/pyarrow-stubs/issues/44
@@ -96,6 +100,7 @@ def timestamp_to_sf_struct(ts: pa.Array | pa.ChunkedArray) -> pa.Array:
                 pa.field("fraction", nullable=False, type=pa.int32()),
                 pa.field("timezone", nullable=False, type=pa.int32()),
             ],
+            mask=null_mask,
         )
     else:
         return pa.StructArray.from_arrays(
@@ -104,4 +109,5 @@ def timestamp_to_sf_struct(ts: pa.Array | pa.ChunkedArray) -> pa.Array:
                 pa.field("epoch", nullable=False, type=pa.int64()),
                 pa.field("fraction", nullable=False, type=pa.int32()),
             ],
+            mask=null_mask,
         )
